@@ -94,4 +94,96 @@ def vecExpect1 (st : State) (obs : Pauli) : Int :=
   let triv : Int := ((st.rows.take (N + st.r)).map fun row => (acqGrid row.g obs.g + 1) % 2).foldl (· * ·) 1
   sign * triv
 
+/-! ## second batch: `ipow`, `acq`, `ps0`, `ipow_product`, `pauli_combine`, `pauli_transform`, `pauli_diagonalize1/2` -/
+
+def vmul : List Int → List Int → List Int
+  | a :: as, b :: bs => a * b :: vmul as bs
+  | _, _ => []
+def vadd : List Int → List Int → List Int
+  | a :: as, b :: bs => (a + b) :: vadd as bs
+  | _, _ => []
+def vsub : List Int → List Int → List Int
+  | a :: as, b :: bs => (a - b) :: vsub as bs
+  | _, _ => []
+def vsum : List Int → Int
+  | [] => 0
+  | a :: as => a + vsum as
+
+/-- `ipow(g1, g2)`: `sum(g1z*g2x - g1x*g2z + 2*(floor(gx/2)*gz + gx*floor(gz/2))) % 4` with `gx = g1x+g2x`, `gz = g1z+g2z` -/
+def ipow (g1 g2 : PStr) : Int :=
+  let g1x := xs g1; let g1z := zs g1; let g2x := xs g2; let g2z := zs g2
+  let gx := vadd g1x g2x; let gz := vadd g1z g2z
+  let half (v : List Int) := v.map (· / 2)
+  let t1 := vsub (vmul g1z g2x) (vmul g1x g2z)
+  let t2 := (vadd (vmul (half gx) gz) (vmul gx (half gz))).map (2 * ·)
+  vsum (vadd t1 t2) % 4
+
+/-- `acq(g1, g2)`: `sum(gz1*gx2 - gx1*gz2) % 2` (one sum of differences) -/
+def acq (g1 g2 : PStr) : Int := vsum (vsub (vmul (zs g1) (xs g2)) (vmul (xs g1) (zs g2))) % 2
+
+/-- `ps0(gs)`, one row: `sum(gs[::2] * gs[1::2]) % 4` -/
+def p0 (g : PStr) : Int := vsum (vmul (xs g) (zs g)) % 4
+
+/-- `acq_mat(gs)`: `(matmul(gz, gx.T) - matmul(gx, gz.T)) % 2` -/
+def acqMat (gs : List PStr) : List (List Int) := gs.map fun a => gs.map fun b => acqGrid a b
+
+/-- `ipow_product(g1, g2)`: the `L1*L2` vector, row `i*L2 + j` pairs `g1[i]` with `g2[j]` -/
+def ipowProduct (a b : List PStr) : List Int := a.flatMap fun g1 => b.map fun g2 => ipow g1 g2
+
+/-- `pauli_combine(C, gs_in, ps_in)`, one output row: the columns `torch.nonzero` lists for that row, ascending -/
+def combine (n : Nat) (c : List Bool) (rows : List Pauli) : Pauli :=
+  ((List.range c.length).filter fun j => c.getD j false).foldl
+    (fun acc j => match rows[j]? with
+      | some r => ⟨xorS acc.g r.g, (acc.p + r.p + ipow acc.g r.g) % 4⟩
+      | none => acc) ⟨idStr n, 0⟩
+
+/-- `pauli_transform`: `ps_out = (ps_in + ps0(gs_in) + ps_combined) % 4` -/
+def transform (M : List Pauli) (P : Pauli) : Pauli :=
+  let c := combine (mapN M) (flat P.g) M
+  ⟨c.g, (P.p + p0 P.g + c.p) % 4⟩
+
+/-- `g2 = (g2 + acq(g, g2) * g) % 2` as written in `pauli_diagonalize2` (the sum-form `acq`) -/
+def kick (g h : PStr) : PStr :=
+  let mask : Int := acq g h
+  (h.zip g).map fun (a, b) => (((b2i a.1 + mask * b2i b.1) % 2) != 0, ((b2i a.2 + mask * b2i b.2) % 2) != 0)
+
+/-- first generator of `pauli_diagonalize1/2` (torch text: `front` is the argmax version) -/
+def diagGenA (g1 : PStr) (i0 : Nat) : PStr :=
+  let g :=
+    if !(getQ g1 i0).2 then
+      let i := front g1
+      let q := getQ g1 i
+      let x' := q.1 != q.2
+      let z' := q.2 != x'
+      setQ g1 i (x', z')
+    else g1
+  setQ g i0 (true, (getQ g i0).2)
+
+/-- `pauli_diagonalize1(g1, i0)` -/
+def diagonalize1 (g1 : PStr) (i0 : Nat) : List PStr :=
+  if !(isOnsite g1 i0 && !(getQ g1 i0).1) then
+    if !(getQ g1 i0).1 then
+      let g := diagGenA g1 i0
+      let g1' := xorS g1 g
+      [g, diagGenB g1' i0]
+    else [diagGenB g1 i0]
+  else []
+
+/-- `pauli_diagonalize2(g1, g2, i0)` -/
+def diagonalize2 (g1 g2 : PStr) (i0 : Nat) : List PStr × PStr × PStr :=
+  let (gs, g1, g2) :=
+    if !(isOnsite g1 i0 && !(getQ g1 i0).1) then
+      let (gs, g1, g2) :=
+        if !(getQ g1 i0).1 then
+          let g := diagGenA g1 i0
+          ([g], xorS g1 g, kick g g2)
+        else ([], g1, g2)
+      let g := diagGenB g1 i0
+      (gs ++ [g], xorS g1 g, kick g g2)
+    else ([], g1, g2)
+  if !isOnsite g2 i0 then
+    let g := setQ g2 i0 (false, true)
+    (gs ++ [g], g1, xorS g2 g)
+  else (gs, g1, g2)
+
 end PC.T
